@@ -49,6 +49,7 @@ def case(task):
     def put(k, e, rmax):
         res['err'].setdefault(k, []).append(e)
         res['refmax'][k] = rmax
+    gc.set_trim(desc, p)
     try:
         for N in Ns:
             states = {}
@@ -263,6 +264,9 @@ def build_tasks(tier, seed):
     # de Sitter: no matter (vacuum option on) but Lambda != 0; conformally
     # flat, so the Weyl tensor vanishes in both constructions
     tasks.append((('ds',), 4, True, (14, 20), seed))
+    # anti-de Sitter (Lambda < 0), vacuum option on and off
+    tasks.append((('ads',), 4, True, (16, 32), seed))
+    tasks.append((('ads',), 4, False, (16, 32), seed))
     return tasks
 
 
@@ -298,7 +302,7 @@ def main(tier):
                 ok = e_lo <= 1e-9 and e_hi <= 1e-9
                 why = f"round-off identity: {e_lo:.2e},{e_hi:.2e}"
             else:
-                cap = gc.CAPS[p] * (30 if desc[0] == 'schw' else 1)
+                cap = gc.CAPS[p] * (30 if desc[0] in ('schw', 'ads') else 1)
                 ok, why = gc.converges(e_lo, e_hi, p, cap=cap)
             if ok and p == 8:
                 worst[k] = max(worst.get(k, 0.0), e_hi)
